@@ -16,3 +16,25 @@ func (s *Store) VerifSetFlushRate(rate float64) {
 func (s *Store) VerifFreeList() *freelist.FreeList {
 	return s.freelist
 }
+
+// VerifTick does what the periodic ticker of run() does: a non-blocking send
+// on flushNow. It reports whether the signal was queued.
+func (s *Store) VerifTick() bool {
+	select {
+	case s.flushNow <- struct{}{}:
+		return true
+	default:
+		return false
+	}
+}
+
+// VerifTakeFlushNow does what run() does before calling Flush: a non-blocking
+// receive from flushNow. It reports whether a signal was pending.
+func (s *Store) VerifTakeFlushNow() bool {
+	select {
+	case <-s.flushNow:
+		return true
+	default:
+		return false
+	}
+}
